@@ -608,7 +608,7 @@ func init() {
 	})
 	RegGen("C19", "cost.measure (implementation only): per family a size-doubling series measured in child processes — nested timestamped values up to 1 MiB, "+
 		"up to 70 000 stream values / quotes, up to 200 000 remove votes and channel definitions, coefficients up to 1 MiB, exponent gaps up to 2^20, "+
-		"errors joined in a loop and formatted (5 definitions × up to 10 000 zero-aggregator streams, up to 4 000 failing definitions, up to 9 998 failing EVM payload values, mercury v3 Report with every consensus failing), "+
+		"errors joined in a loop and formatted (5 definitions × up to 10 000 zero-aggregator streams, up to 4 000 failing definitions, up to 64 000 undecodable stream values in one observation, up to 9 998 failing EVM payload values, mercury v3 Report with every consensus failing), "+
 		"and the F2 witness capped at 3 s; callbacks: ValidateObservation, ObservationCodec.Decode, Median/Quote/ModeAggregator, Outcome, Reports, Quote.IsValid, evm.CalculateFee; "+
 		"non-trivial = at least one callback measured", genC19Measure)
 	RegMonitor("C19", monC19Measure)
@@ -645,6 +645,7 @@ func genC19Measure(g *G) {
 		m("exp-gap", doubling(1<<12, 1<<20), doubling(1<<12, 1<<20))
 		m("verify-errors", append(doubling(125, 8000), 10000, 20000), doubling(125, 8000))
 		m("verify-errors-defs", append(doubling(125, 2000), 4000), nil)
+		m("decode-errors", doubling(1000, 64000), nil)
 		m("evm-payload-errors", append(doubling(125, 8000), 9998), nil)
 		m("mercury-report-errors", []int{1}, nil)
 	} else {
@@ -659,6 +660,7 @@ func genC19Measure(g *G) {
 		m("exp-gap", []int{1 << 16, 1 << 18, 1 << 20}, []int{1 << 16, 1 << 18, 1 << 20})
 		m("verify-errors", []int{500, 2000, 10000}, []int{500, 2000})
 		m("verify-errors-defs", []int{500, 2000}, nil)
+		m("decode-errors", []int{2000, 8000, 64000}, nil)
 		m("evm-payload-errors", []int{500, 2000, 9998}, nil)
 		m("mercury-report-errors", []int{1}, nil)
 	}
